@@ -149,7 +149,20 @@ def do_run(filters):
                 r = sh([os.path.join(ROOT, "check"), prop, tier], cwd=ROOT, env=dict(ENV, VERIF_REPO=wt), timeout=7200)
                 det = {0: "MISSED", 1: "caught", 2: "infra"}.get(r.returncode, str(r.returncode))
                 first = next((l.strip()[:200] for l in r.stdout.splitlines() if l.startswith("  ")), "")
-                rows.append((name, prop, tier, det, "%.0fs" % (time.time() - t0), first))
+                rp = ""
+                if det == "caught" and os.environ.get("SEED_REPLAY", "1") != "0":
+                    # the shrunk case must reproduce from its replay file on the changed
+                    # tree and pass on /repo (the property holds there for that very case)
+                    m = re.search(r"^VIOLATION property=\S+ replay=(\S+)", r.stdout, re.M)
+                    if m and m.group(1).endswith(".json") and "-race-" not in m.group(1):
+                        a = sh([os.path.join(ROOT, "check"), prop, "--replay", m.group(1)], cwd=ROOT, env=dict(ENV, VERIF_REPO=wt), timeout=900)
+                        b = sh([os.path.join(ROOT, "check"), prop, "--replay", m.group(1)], cwd=ROOT, env=ENV, timeout=900)
+                        rp = "replay: changed tree exit %d, /repo exit %d" % (a.returncode, b.returncode)
+                        if a.returncode != 1 or b.returncode != 0:
+                            det = "caught-but-replay-wrong"
+                    elif m:
+                        rp = "replay: race log / schedule-dependent, not replayed"
+                rows.append((name, prop, tier, det, "%.0fs" % (time.time() - t0), (rp + " | " if rp else "") + first))
                 print("\t".join(rows[-1]), flush=True)
                 if det == "caught":
                     break
